@@ -575,11 +575,11 @@ def reader_facts():
     nl = _kw(opens[0], "newline")
     if not (_const_str(nl) and nl.value == ""):
         raise Unsupported("CsvfileReader.__init__: file is not opened with newline=''")
-    sniffs = [c for c in _calls(init) if isinstance(c.func, ast.Attribute) and c.func.attr == "sniff"]
-    if len(sniffs) != 1:
-        raise Unsupported("CsvfileReader.__init__: expected one Sniffer().sniff() call")
-    reads = [c for c in _calls(sniffs[0]) if isinstance(c.func, ast.Attribute) and c.func.attr == "read"]
-    if len(reads) != 1 or len(reads[0].args) != 1 or not isinstance(reads[0].args[0], ast.Constant):
+    # the sample handed to the dialect guess: <fp>.read(<int>) somewhere in __init__ (how the guess is made is behaviour:
+    # the read-back leg of the check compares the records read with the file's own dialect)
+    reads = [c for c in _calls(init) if isinstance(c.func, ast.Attribute) and c.func.attr == "read" and len(c.args) == 1
+             and isinstance(c.args[0], ast.Constant) and isinstance(c.args[0].value, int)]
+    if len(reads) != 1:
         raise Unsupported("CsvfileReader.__init__: sniff sample size not found")
     if not any(isinstance(c.func, ast.Name) and c.func.id == "normalize_fieldname" for c in _calls(init)):
         raise Unsupported("CsvfileReader.__init__: header cells are not normalised")
